@@ -298,6 +298,11 @@ EvConc(e) ==
         /\ IF r.op \in {"WriteTo", "ReadPacket"} /\ r.h \in DOMAIN enc
            THEN NoteIf(~r.same \/ r.bytes # enc[r.h].bytes, "C13", "concurrent WriteTo differs from the sequential encoding", [op |-> r.op, h |-> r.h])
            ELSE TRUE
+  /\ \A i, j \in 1..Len(e.results) :
+        LET a == e.results[i]  b == e.results[j] IN
+        IF i < j /\ a.op = "WriteTo" /\ b.op = "WriteTo" /\ a.h = b.h
+        THEN NoteIf(a.bytes # b.bytes, "C13", "two concurrent WriteTo calls on one packet gave different bytes", [h |-> a.h])
+        ELSE TRUE
   /\ Bystanders(e, 0)
   /\ UNCHANGED <<pool, from, contig, enc, memo, diag, prog>> /\ KeepStream
 EvRace(e) ==
@@ -367,7 +372,10 @@ ReadReturn(e) ==                                     \* k = Len(calls) + 1
       rtrip == judge /\ src.t >= 0 /\ InC01Domain(src.t, src.o) /\ from \in DOMAIN enc /\ enc[from].bytes = g
   IN
   /\ NoteIf(e.ok = e.nilpkt, "C04", "ReadPacket returned neither exactly a packet nor exactly an error", [ok |-> e.ok, nilpkt |-> e.nilpkt])
-  /\ NoteIf(~MayReturn(res, e.isE, e.isEOF), IF faulty THEN "C08" ELSE "C07",
+  /\ NoteIf(~MayReturn(res, e.isE, e.isEOF),
+            IF faulty THEN "C08"
+            ELSE IF ~e.ok /\ Header(g).hdr THEN "C06"      \* gave up with part of the frame left on the stream
+            ELSE "C07",
             IF e.ok THEN "packet returned although the frame was not obtained completely"
             ELSE "error does not report what happened on the stream",
             [got |-> rp.got, fault |-> rp.fault, ok |-> e.ok, isE |-> e.isE, isEOF |-> e.isEOF, hdr |-> Header(g)])
